@@ -145,12 +145,24 @@ def gen_decision_cases(tier, seed):
         cfg = wc.Cfg(cluded=sets["cluded"], included=sets["included"], excluded=sets["excluded"], history=sets["history"],
                      project_roots=sets["project_roots"], project_parents=sets["project_parents"])
         s = wc.Script(log=False)
-        s.config(cfg)
+        reloaded = rng.random() < 0.3
+        if reloaded:
+            # the daemon starts with another policy (often with no rules at all) and is given the one under test by
+            # rewriting its configuration file: the decision is that of the policy in force
+            first = wc.Cfg(**{k: (sorted(set(rng.choice(U) for _ in range(rng.choice([0, 1])))) if rng.random() < 0.4 else [])
+                              for k in ("cluded", "included", "excluded", "history", "project_roots", "project_parents")})
+            s.config(first)
+        else:
+            s.config(cfg)
         s.put(wc.X + "/vim", "x")
         s.put(path, "data")
         s.start()
         if editor:
             s.exec(5, wc.X + "/vim")
+        if reloaded:
+            s.config(cfg)
+            s.write(9, wc.CFG_PATH)
+        s.dump()
         s.write(5, path)
         s.dump()
         cases.append(("d%d" % n, s.text(), path, off, sets, editor))
@@ -165,7 +177,8 @@ def decision_monitor(path, off, sets, editor, out):
     if not dumps:
         return "no dump"
     d = dumps[-1]
-    queued = any(p.startswith("/k/var/queue/") for p in d)
+    before = dumps[-2] if len(dumps) > 1 else {}
+    queued = any(p.startswith("/k/var/queue/") and p not in before for p in d)
     if queued not in exp:
         return "write by %s to %s was %squeued, the policy says %s" % ("an editor" if editor else "a non-editor", path,
                                                                        "" if queued else "not ", "queued" if True in exp else "not queued")
@@ -190,7 +203,7 @@ def main(rep):
         rep.cov["rule"] = ("sieve(): paths of depth <= %d over components {a, b, .c}, common-parent offsets {1,3,5,len+1}, every single rule "
                            "(absolute/relative prefixes, '/', rules ending inside or beyond a component, rules naming a different directory of equal length and equal 64-bit hash) in every set, sampled pairs, random long paths; "
                            "decisions: random rule assignments to the four path sets, editor and non-editor writers, through the real handle_close_write "
-                           "with a Lua configuration; non-trivial = at least one rule matches; distinct by (path, offset, sets)" % (3 if rep.tier == "quick" else 4))
+                           "with a Lua configuration, in 3 of 10 cases put in force by rewriting the configuration file of a daemon started with another policy; non-trivial = at least one rule matches; distinct by (path, offset, sets)" % (3 if rep.tier == "quick" else 4))
         nontrivial = set()
         validated = 0
         diverged = []
